@@ -13,6 +13,7 @@ package memstore
 
 import (
 	"encoding/json"
+	"fmt"
 	"math/big"
 	"sort"
 	"time"
@@ -468,11 +469,10 @@ func (t *tables) findLatestSchemaVersion() *string {
 // ---- logs ----------------------------------------------------------------------
 
 // insertLog: id from the sequence when nil, date defaults to transaction_date(),
-// unique (ledger, idempotency_key) → ErrIdempotencyKeyConflict. A duplicate
-// (ledger, id) is reported the way Store.InsertLog reports it today: the
-// constraint switch only returns for `logs_idempotency_key`, any other unique
-// violation falls out of the switch and the method returns nil while the SQL
-// transaction is aborted (second result).
+// unique (ledger, idempotency_key) → ErrIdempotencyKeyConflict; a duplicate
+// (ledger, id) → "inserting log: <unique violation>" (since /repo 6422698; before
+// that commit Store.InsertLog swallowed it — the second result is kept for that
+// older behaviour and is always false now).
 func (t *tables) insertLog(sq *seqs, now libtime.Time, log *ledger.Log) (err error, abortedSilently bool) {
 	payload, err := json.Marshal(log.Data)
 	if err != nil {
@@ -491,7 +491,7 @@ func (t *tables) insertLog(sq *seqs, now libtime.Time, log *ledger.Log) (err err
 	}
 	for _, other := range t.Logs {
 		if other.ID == row.ID {
-			return nil, true
+			return fmt.Errorf("inserting log: %w", uniqueViolation("logs_id")), false
 		}
 	}
 	if row.IK != "" {
